@@ -132,9 +132,12 @@ static inline int ref_split_full(uint64_t v, uint8_t *o) {
     }
     uint64_t x = v - 4210749;
     int w = ref_bytes_of(x);
+#ifndef VARINT_SPLIT_FULL_USE_MAXIMUM_RANGE
+    /* default: never shrink. With the documented switch the 255 values 4210750..4211004 take the 2-byte form c1 q */
     if (w < 2) {
         w = 2;
     }
+#endif
     o[0] = (uint8_t)(0xc0 | w);
     ref_le(o + 1, x, w);
     return 1 + w;
@@ -160,9 +163,11 @@ static inline int ref_split_full_nz(uint64_t v, uint8_t *o) {
     }
     uint64_t x = v - 4210750;
     int w = ref_bytes_of(x);
+#ifndef VARINT_SPLIT_FULL_NO_ZERO_USE_MAXIMUM_RANGE
     if (w < 2) {
         w = 2;
     }
+#endif
     o[0] = (uint8_t)(0xc0 | w);
     ref_le(o + 1, x, w);
     return 1 + w;
